@@ -73,9 +73,10 @@ def generate(run_seed, tier):
     mcfg = R.gen_model_cfg(c)
     mcfg['contribs'] = ['Absorption'] + [x for x in ('CIA', 'Rayleigh')
                                          if c.random() < 0.4]
+    R.add_extra_contribs(c, mcfg, p=0.2)
     mcfg['nlayers'] = c.randint(3, 6)
     mcfg['opac']['ngrid'] = c.randint(10, 24)
-    fit = S.gen_fit(c, mcfg, nmax=3)
+    fit = S.gen_fit(c, mcfg, nmax=3, rich=True)
     derived = [d for d in DERIVED_POOL if c.random() < 0.5]
     if c.random() < 0.15:
         derived = []
@@ -466,7 +467,8 @@ def simplify(case):
                 del row[-1]
             yield c
     # simpler model
-    if len(cfg['model']['contribs']) > 1:
+    if len(cfg['model']['contribs']) > 1 and \
+            not S.fit_needs_contribs(cfg['fit']):
         c = copy.deepcopy(case)
         c['config']['model']['contribs'] = ['Absorption']
         yield c
